@@ -29,6 +29,7 @@ import LemoProofs.Lemmas.EvmShape
 import LemoProofs.Lemmas.EvmJournal
 import LemoProofs.Lemmas.EvmStatic
 import LemoProofs.Lemmas.EvmModExp
+import LemoProofs.Lemmas.EvmGasLemmas
 namespace LemoProofs.C16
 open LemoModel LemoModel.Evm LemoProofs.EvmShape LemoProofs.EvmJournal LemoProofs.EvmStatic
 
@@ -706,6 +707,58 @@ theorem static_fail_event_survives :
     let m2 := step T m1 { op := 0, stackLen := 1 }                                                   -- STOP
     m0.journal = [] ∧ m1.readOnly = true ∧ m2.result = some (.ok, 49300) ∧ m2.frames = [] ∧
     m2.journal = [.event true] := by
+  decide
+
+/-! ### the memory part of the gas (`LemoModel.EvmGas`) -/
+
+/-- the memory fee is monotone in the number of words -/
+theorem memcost_monotone (P : Params) {a b : Nat} (h : a ≤ b) : EvmGas.memFee P a ≤ EvmGas.memFee P b :=
+  EvmGasLemmas.memFee_mono P h
+
+/-- **memcost_closed_form**: with the live parameters the total fee for `w` words is `3·w + w²/512`,
+    and what a frame that starts with empty memory pays for any sequence of memory requests (in words)
+    telescopes to exactly the fee of the largest request — independent of the order and of repeats. -/
+theorem memcost_closed_form (w : Nat) (ns : List Nat) :
+    EvmGas.memFee EvmTable.table.params w = 3 * w + w * w / 512 ∧
+    EvmGas.memChargeAll EvmTable.table.params 0 ns =
+      EvmGas.memFee EvmTable.table.params (ns.foldl (fun acc n => max n acc) 0) := by
+  constructor
+  · show w * 3 + w * w / 512 = 3 * w + w * w / 512
+    omega
+  · have := EvmGasLemmas.memChargeAll_add EvmTable.table.params 0 ns
+    have h0 : EvmGas.memFee EvmTable.table.params 0 = 0 := by decide
+    omega
+
+/-- whenever the gas stage of `gasOf` succeeds, the dynamic part it returns contains the full memory
+    expansion charge for the size the operands ask for, and the frame's memory is that size afterwards -/
+theorem gasOf_charges_memory (P : Params) (info : OpInfo) (cv : Bool) (st : List Nat) (cur : Nat)
+    (bits : EvmGas.GasBits) (e w : Nat) (h : EvmGas.gasOf P info cv st cur bits = .ok e w) :
+    EvmGas.memCharge P cur (EvmGas.toWords (if info.hasMem then EvmGas.memSize st info.mem else 0)) ≤ e ∧
+    w = max (EvmGas.toWords (if info.hasMem then EvmGas.memSize st info.mem else 0)) cur := by
+  unfold EvmGas.gasOf at h
+  simp only [] at h
+  generalize (if info.hasMem = true then EvmGas.memSize st info.mem else 0) = ms at h ⊢
+  split at h; · cases h
+  split at h; · cases h
+  split at h
+  · cases h
+  · simp only [EvmGas.GasRes.ok.injEq] at h
+    obtain ⟨h1, h2⟩ := h
+    unfold EvmGas.memCharge
+    exact ⟨by omega, h2.symm⟩
+
+set_option maxRecDepth 100000 in
+/-- **table tie of the memory gas**: every instruction of the real jump table that has a memory-size
+    function was probed with memorySize = 64 and 32768 bytes on empty memory, and its gas function
+    charged exactly `memFee 2` and `memFee 1024` on top of its constant part; instructions without a
+    memory-size function have no memory operands. (Dropping the memory term from any gas function
+    changes the probe → `table-mismatch`, and every traced cost is compared with `gasOf`.) -/
+theorem table_memgas_probe : ∀ op < 256,
+    ((EvmTable.table.info op).hasMem = true →
+      (EvmTable.table.info op).memGas2 = EvmGas.memFee EvmTable.table.params 2 ∧
+      (EvmTable.table.info op).memGas1024 = EvmGas.memFee EvmTable.table.params 1024 ∧
+      (EvmTable.table.info op).mem ≠ []) ∧
+    ((EvmTable.table.info op).hasMem = false → (EvmTable.table.info op).mem = []) := by
   decide
 
 /-! ### precompile lengths: the MODEXP header (`LemoModel.ModExp`) -/
